@@ -1,6 +1,7 @@
 package main
 
 import (
+	"go/printer"
 	"fmt"
 	"go/ast"
 	"go/token"
@@ -36,7 +37,27 @@ func (e *Eng) numberSites(body *ast.BlockStmt) {
 	}
 	counts := map[string]int{}
 	nCalls := 0
+	e.siteName = map[ast.Node]string{}
+	seenText := map[string]int{}
+	nameIt := func(n ast.Node) {
+		var buf strings.Builder
+		printer.Fprint(&buf, token.NewFileSet(), n)
+		t := strings.Join(strings.Fields(buf.String()), "")
+		if len(t) > 56 {
+			t = t[:56] + "~"
+		}
+		k := seenText[t]
+		seenText[t]++
+		if k > 0 {
+			t = fmt.Sprintf("%s.%d", t, k+1)
+		}
+		e.siteName[n] = t
+	}
 	ast.Inspect(body, func(n ast.Node) bool {
+		switch n.(type) {
+		case *ast.CallExpr, *ast.IndexExpr, *ast.SliceExpr, *ast.BinaryExpr, *ast.UnaryExpr, *ast.StarExpr, *ast.SelectorExpr, *ast.TypeAssertExpr, *ast.IncDecStmt, *ast.AssignStmt:
+			nameIt(n)
+		}
 		switch n := n.(type) {
 		case *ast.ForStmt, *ast.RangeStmt:
 			e.loopOrd[n] = len(e.loopOrd)
